@@ -333,6 +333,15 @@ def check(item, case, rec):
                 it.assemble.vector(fc)
                 it.update(case["load"] + 0.1)
                 rec.label("load-set-by-update")
+            elif case["useed"] % 3 == 0:
+                # the load level handed over with the assembly call itself (keyword pressure= of vector / matrix): the first matrix at
+                # the new level is already the tangent of that level
+                it = fem.SolidBodyPressure(fc, pressure=-1.7)
+                it.assemble.vector(fc)
+                K_kw = np.asarray(it.assemble.matrix(fc, pressure=case["load"] + 0.1).toarray()).copy()
+                K_pl = np.asarray(it.assemble.matrix(fc).toarray())
+                rec.close("matrix(pressure=p)=matrix-at-that-level", float(np.abs(K_kw - K_pl).max()) / max(float(np.abs(K_pl).max()), 1e-300), 1e-14)
+                rec.label("load-set-by-the-keyword-of-the-assembly-call")
             else:
                 it = fem.SolidBodyPressure(fc, pressure=case["load"] + 0.1)
             symmetric = not case["mask"] and fkind != "axi"
